@@ -84,6 +84,45 @@ fn sweep<const D: usize>(rng: &mut Rng, out: &mut Out, reps: usize) {
     let _ = n;
 }
 
+/// bootstrap with a degenerate (D+1)-th point: D affinely independent points, then a point in
+/// their affine hull (the initial simplex cannot be built), then completing points - for every
+/// guarantee and with the Delaunay-layer snapshot on (repair EveryInsertion) and off (Never)
+fn boot_sweep<const D: usize>(rng: &mut Rng, out: &mut Out) {
+    use delaunay::core::delaunay_triangulation::{DelaunayCheckPolicy, DelaunayRepairPolicy};
+    for g in 0..3usize {
+        for rpi in 0..2usize {
+            for stats in [false, true] {
+                let mut w: World<D> = hist::start_empty::<D>(g);
+                let rp = [DelaunayRepairPolicy::Never, DelaunayRepairPolicy::EveryInsertion][rpi];
+                w.dt.set_delaunay_repair_policy(rp);
+                w.dt.set_delaunay_check_policy(DelaunayCheckPolicy::EndOnly);
+                w.repair_on = rpi != 0;
+                let pol = format!("OnSuspicion/{rp:?}/EndOnly").replace(' ', "");
+                // D independent points: origin and D-1 scaled unit vectors
+                let mut pts: Vec<[f64; D]> = vec![[0.0; D]];
+                for a in 0..D - 1 { let mut p = [0.0; D]; p[a] = (2 + a) as f64; pts.push(p); }
+                // in their affine hull: an affine combination with coefficients (-1, 1, 1, 0, ...)
+                let mut deg = [0.0; D];
+                let j = if pts.len() > 2 { 2 } else { 1 };
+                for i in 0..D { deg[i] = pts[1][i] + pts[j][i] - pts[0][i]; }
+                pts.push(deg);
+                // completing point off the hull, then one more
+                let mut top = [1.0; D]; top[D - 1] = 3.0;
+                pts.push(top);
+                let mut more = [0.5; D]; more[0] = 1.25;
+                pts.push(more);
+                let classes = ["boot", "boot", "boot", "boot", "boot"];
+                for (s, p) in pts.iter().enumerate() {
+                    let class = if s == D { "boot_degenerate" } else if s > D { "boot_completing" } else { classes[s.min(4)] };
+                    let (obs, _ins) = w.do_insert(*p, stats, rng);
+                    let args = format!("{} class={class} pol={pol} stats={}", w.expect_args(false), stats as u8);
+                    w.emit_state(&format!("bs{D}_{g}_{rpi}_{}_{s}", stats as u8), "insert", &args, &obs, out, false);
+                }
+            }
+        }
+    }
+}
+
 pub fn run(cfg: &Cfg, rng: &mut Rng, out: &mut Out) {
     let thorough = cfg.tier == "thorough";
     let nh = if thorough { 40 } else { 6 };
@@ -95,6 +134,10 @@ pub fn run(cfg: &Cfg, rng: &mut Rng, out: &mut Out) {
             history::<5>(h, rng, out, if thorough { 12 } else { 9 });
         }
     }
+    boot_sweep::<2>(rng, out);
+    boot_sweep::<3>(rng, out);
+    boot_sweep::<4>(rng, out);
+    boot_sweep::<5>(rng, out);
     let reps = if thorough { 4 } else { 1 };
     sweep::<2>(rng, out, reps);
     sweep::<3>(rng, out, reps);
